@@ -225,6 +225,18 @@ def finish_file_check(res, prop, tier, events, work, prefixes, findings, rule):
     return res.finish(tier)
 
 
+def all_slivers(v):
+    """every interval of the blank-filled tier is below the threshold: nothing of positive length can be written that is not
+    a sliver, so 'partition of the file span' (C02) and 'no written interval below the threshold' (C04) cannot both hold"""
+    if not v["useT"]:
+        return False
+    lo = v["lo"] if v["lo"] is not None else 0
+    hi = v["hi"] if v["hi"] is not None else v["N"]
+    cuts = sorted(set([lo, hi] + [x["s"] for x in v["ents"]] + [x["e"] for x in v["ents"]]))
+    cuts = [c for c in cuts if lo <= c <= hi]
+    return all(2 * (b - a) < v["T2"] for a, b in zip(cuts, cuts[1:]))
+
+
 def check_c02(prop, tier):
     res = common.Result(prop)
     work = common.scratch()
@@ -248,8 +260,7 @@ def check_c02(prop, tier):
         events = parallel(_c02_job, jobs)
         # tiers with slivers (on an exact grid): the written file must still be a partition of the file's span
         # (a file span shorter than the threshold cannot be both a partition and free of sub-threshold intervals: left out)
-        sv = [v for v in c04_random_vectors(sz["c04rand"] // 3, common.SEED + 1)
-              if v["blanks"] and (not v["useT"] or ((v["hi"] if v["hi"] is not None else v["N"]) - (v["lo"] or 0)) >= v["T2"])]
+        sv = [v for v in c04_random_vectors(sz["c04rand"] // 3, common.SEED + 1) if v["blanks"] and not all_slivers(v)]
         events += parallel(_c04_job, [(ch, 0, work) for ch in chunks(sv, common.NCPU)])
         events = renumber(events)
         for ev in events:
